@@ -4,7 +4,13 @@ from fractions import Fraction as F
 from harness import common
 from harness.props import c05
 from harness.props.c05 import fr, parse_trace, DELTAS, TEMPI
-from harness.impl.c05 import FORM_NAMES, RGEN_READS
+from harness.impl.c05 import FORM_NAMES, RGEN_READS, PATTERN_FORMS
+
+
+def pick_form(rng):
+    # the three shared random list patterns get a fifth of all draws (a second use of the same object matters)
+    return rng.choice(PATTERN_FORMS) if rng.random() < 0.2 else rng.randrange(len(FORM_NAMES))
+
 
 
 def norm_events(trace, start):
@@ -78,7 +84,7 @@ class Check(c05.Check):
 
     def rule(self):
         return ('C05 programs plus pause/resume/stop of other routines (and of itself: refused), Condition wait/'
-                'signal, seeds (incl. 0 and equal seeds in several routines) and draws via builtins.rand, nested sub-streams, '
+                'signal, seeds (incl. 0 and equal seeds in several routines) and draws via every builtins random form and via Pshuffle/Prand/Pxrand pattern OBJECTS shared by all routines and plays of a program (20% of draws; values equal those of a fresh pattern object from the same generator state), nested sub-streams, '
                 'bodies that raise, bundle sends carrying the last drawn value, '
                 'yield inf; 60% single-clock (SystemClock or one TempoClock incl. tempo changes) run in RT under '
                 'arbitrary scripted lateness and required to equal the NRT trace exactly; multi-clock programs are '
@@ -147,7 +153,7 @@ class Check(c05.Check):
                 if w < 0.35:
                     acts.append(['log'])
                 elif w < 0.5:
-                    acts.append(['draw', rng.randrange(len(FORM_NAMES))])
+                    acts.append(['draw', pick_form(rng)])
                 elif w < 0.6:
                     acts.append(['send', rng.randrange(100)])
                 elif interfere and w < 0.8:
@@ -196,13 +202,13 @@ class Check(c05.Check):
                 sub = len(rts)
                 body = ([['seed', next(seeds)]] if rng.random() < 0.7 else [])
                 for _ in range(rng.randint(1, 4)):
-                    body += [['draw', rng.randrange(len(FORM_NAMES))] for _ in range(rng.randint(1, 2))] + [['y', '0']]
+                    body += [['draw', pick_form(rng)] for _ in range(rng.randint(1, 2))] + [['y', '0']]
                 if rng.random() < 0.3:
                     body.insert(rng.randrange(1, len(body) + 1), ['seed', next(seeds)])
                 rts.append(body)
                 for _ in range(rng.randint(1, 4)):
                     k = rng.randrange(len(rts[puller]) + 1)
-                    rts[puller][k:k] = ([['draw', rng.randrange(len(FORM_NAMES))] for _ in range(rng.randint(0, 2))]
+                    rts[puller][k:k] = ([['draw', pick_form(rng)] for _ in range(rng.randint(0, 2))]
                                         + [['pull', sub]])
         if rng.random() < 0.3:
             # rand_state: saved (from inside the routine or from another routine = outside) and assigned back later;
@@ -210,14 +216,14 @@ class Check(c05.Check):
             t = rng.randrange(n)
             ctl = t if rng.random() < 0.35 else rng.randrange(n)
             if not any(a[0] == 'draw' for a in rts[t]):
-                rts[t] += [['draw', rng.randrange(len(FORM_NAMES))], ['y', '1/4'], ['draw', rng.randrange(len(FORM_NAMES))]]
+                rts[t] += [['draw', pick_form(rng)], ['y', '1/4'], ['draw', pick_form(rng)]]
             k1 = rng.randrange(len(rts[ctl]) + 1)
             rts[ctl].insert(k1, ['save', 0, t])
             k2 = rng.randrange(k1 + 1, len(rts[ctl]) + 1)
             rts[ctl].insert(k2, ['restore', 0, t])
             if ctl == t:
-                rts[t].insert(rng.randrange(k1 + 1, k2 + 1), ['draw', rng.randrange(len(FORM_NAMES))])
-                rts[t].append(['draw', rng.randrange(len(FORM_NAMES))])
+                rts[t].insert(rng.randrange(k1 + 1, k2 + 1), ['draw', pick_form(rng)])
+                rts[t].append(['draw', pick_form(rng)])
         if single and rng.random() < 0.3:
             # defer(func, d, clock) = clock.sched(d, func) from a routine playing on that clock
             r = rng.randrange(n)
